@@ -847,7 +847,9 @@ fn decode_instructions(mut cur: Cursor<&[u8]>) -> MResult<Vec<DecodedInstr>> {
         let fxn_id = cur.read_u64::<LittleEndian>()?;
         let dst = cur.read_u32::<LittleEndian>()?;
         let arg_count = cur.read_u32::<LittleEndian>()? as usize;
-        let mut args = Vec::with_capacity(arg_count);
+        // a hostile count must not size the allocation: reserve no more than the bytes that are left can hold
+        let left = cur.get_ref().len().saturating_sub(cur.position() as usize);
+        let mut args = Vec::with_capacity(arg_count.min(left / 4));
         for _ in 0..arg_count {
           let a = cur.read_u32::<LittleEndian>()?;
           args.push(a);
